@@ -154,6 +154,16 @@ def mk(rng, gid, name, parent, s, e, nrows, ncols, dlat, dlon):
     kinds = [rng.choice(['linear', 'biquadratic', 'biquadratic', 'noise']), rng.choice(['linear', 'linear', 'biquadratic']),
              rng.choice(['const', 'linear', 'biquadratic']), 'id']
     polys = [None if k in ('noise', 'id') else make_poly(rng, k, nrows, ncols) for k in kinds]
+    # grids that taper to "no correction": some sub-grids hold exact zeros in one field, or in all four
+    # (then the fourth field cannot carry the sub-grid id)
+    zr = rng.random()
+    if zr < 0.12:
+        kinds = ['const', 'const', 'const', 'const']
+        polys = [{(0, 0): Fr(0)} for _ in kinds]
+    elif zr < 0.25:
+        k0 = rng.randrange(3)
+        kinds[k0] = 'const'
+        polys[k0] = {(0, 0): Fr(0)}
     table = {}
     for r in range(nrows):
         for c in range(ncols):
@@ -173,7 +183,7 @@ def mk(rng, gid, name, parent, s, e, nrows, ncols, dlat, dlon):
     return dict(gid=gid, name=name, parent=parent, created='%02d%02d%04d' % (rng.randint(1, 28), rng.randint(1, 12), rng.randint(1990, 2030)),
                 updated='%02d%02d%04d' % (rng.randint(1, 28), rng.randint(1, 12), rng.randint(1990, 2030)),
                 s=s, n=s + (nrows - 1) * dlat, e=e, w=e + (ncols - 1) * dlon, dlat=dlat, dlon=dlon, nrows=nrows, ncols=ncols,
-                kinds=kinds, polys=polys, table=table, node=lambda r, c, t=table: t[(r, c)], inc_cls=inc_cls)
+                kinds=kinds, polys=polys, idval=(float(gid) if kinds[3] == 'id' else 0.0), table=table, node=lambda r, c, t=table: t[(r, c)], inc_cls=inc_cls)
 
 
 def gen_file(rng):
@@ -421,12 +431,19 @@ def check_2d(p, G, subs, desc, la, lo, method):
         return
     try:
         s = N.interpolate_ntv2(G, la, lo, method)
-        f = T.ntv2_2d(G, la, lo, True, method)
-        b = T.ntv2_2d(G, la, lo, False, method)
     except Exception:  # noqa  (reported by check_query)
         return
     p.case('shift_signs', inp)
     if s[0] is None:
+        return          # (reported by check_query: no value inside a sub-grid)
+    try:
+        f = T.ntv2_2d(G, la, lo, True, method)
+        b = T.ntv2_2d(G, la, lo, False, method)
+    except Exception as e:  # noqa
+        # the interpolator returned four values here, so the position is inside a sub-grid: the 2-D
+        # transformation has to apply them (an error is only right outside every sub-grid)
+        p.violation('ntv2_2d:inside-raises', 'shift_signs', inp, f'{type(e).__name__}: {e}',
+                    f'(lat + {float(s[0])!r}/3600, lon - {float(s[1])!r}/3600)', f'ntv2_2d(G,{la!r},{lo!r},True|False,{method!r})')
         return
     ef = (la + float(s[0]) / 3600, lo - float(s[1]) / 3600)
     eb = (la - float(s[0]) / 3600, lo + float(s[1]) / 3600)
@@ -480,8 +497,8 @@ def check_query(p, tr, G, subs, offs, flen, desc, la, lo, method, cls, side):
         return
     res = [float(v) for v in res]
     # finest sub-grid: field 4 is the sub-grid's id
-    p.check(math.isfinite(res[3]) and abs(res[3] - g['gid']) <= 1e-6, 'subgrid:not-finest' + sfx if math.isfinite(res[3]) and abs(res[3] - round(res[3])) < 1e-6 and 1 <= round(res[3]) <= len(subs)
-            else key('id-field'), 'finest_subgrid', inp, res[3], g['gid'], call)
+    p.check(math.isfinite(res[3]) and abs(res[3] - g['idval']) <= 1e-6, 'subgrid:not-finest' + sfx if math.isfinite(res[3]) and abs(res[3] - round(res[3])) < 1e-6 and 0 <= round(res[3]) <= len(subs)
+            else key('id-field'), 'finest_subgrid', inp, res[3], g['idval'], call)
     # which bytes were read: only nodes of the selected sub-grid within the 4x4 (2x2) neighbourhood
     gi = subs.index(g)
     start, count = offs[gi], nr * nc
